@@ -169,6 +169,8 @@ def demandOf (dims : Nat) (j : Job) (tk : Task) : List Int × List Int × List I
 def feasible (p : Problem) (s : Solution) : List String := Id.run do
   let mut errs : List String := []
   let hardOrder := !(p.objectives.contains "tour-order")
+  -- goods taken from every shared reload resource, over all tours
+  let mut drawn : List (String × List Int) := []
   for t in s.tours do
     let some vt := p.findType t.vehicleId | continue
     let some sh := vt.shifts[t.shiftIndex]? | continue
@@ -218,14 +220,36 @@ def feasible (p : Problem) (s : Solution) : List String := Id.run do
     let jobSv := sv.filter (fun x => isJobType x.act.type || x.act.type == "reload")
     let mut interval : List Served := []
     let mut intervals : List (List Served) := []
+    -- the shared resource (if any) of the reload that opens each interval: the reload place is told by its tag
+    let mut opener : List (Option String) := [none]
     for x in jobSv do
       if x.act.type == "reload" then
         intervals := interval.reverse :: intervals
         interval := []
+        let candidates := sh.reloads.filter (fun r => r.tag == x.act.tag && r.loc == x.loc)
+        -- told apart only when every candidate agrees on the resource
+        let res := match candidates.map (·.resource) |>.eraseDups with
+          | [r] => r
+          | _ => none
+        opener := res :: opener
       else interval := x :: interval
     intervals := (interval.reverse :: intervals).reverse
+    let openers := opener.reverse
     let mut carried := vzero dims      -- dynamic load carried over a reload
+    let mut ivIdx := 0
     for iv in intervals do
+      -- what this interval loads at its start comes out of the reload's shared resource
+      match openers.getD ivIdx none with
+      | some r =>
+        let loaded := (iv.filterMap (fun x => do
+          let j ← p.findJob x.act.jobId
+          let tk ← taskOf j x.act
+          pure (demandOf dims j tk))).foldl (fun acc d => vadd acc d.2.1) (vzero dims)
+        drawn := match drawn.find? (·.1 == r) with
+          | some _ => drawn.map (fun e => if e.1 == r then (e.1, vadd e.2 loaded) else e)
+          | none => (r, loaded) :: drawn
+      | none => pure ()
+      ivIdx := ivIdx + 1
       let dems := iv.filterMap (fun x => do
         let j ← p.findJob x.act.jobId
         let tk ← taskOf j x.act
@@ -265,6 +289,11 @@ def feasible (p : Problem) (s : Solution) : List String := Id.run do
       let keyed := orders.map (fun o => match o with | some k => k | none => 1000000000)
       if !(keyed.zip (keyed.drop 1)).all (fun (a, b) => decide (a ≤ b)) then
         errs := s!"{name}: task order not respected {orders}" :: errs
+  -- shared reload resources: what all tours draw together stays within the resource
+  for (r, total) in drawn do
+    match p.resources.find? (·.1 == r) with
+    | some (_, cap) => if !vle total cap then errs := s!"shared resource {r}: {total} drawn, capacity {cap}" :: errs
+    | none => errs := s!"shared resource {r} is not defined" :: errs
   -- groups: one tour per group
   let groups := (p.jobs.filterMap (·.group)).eraseDups
   for g in groups do
@@ -296,7 +325,13 @@ def feasible (p : Problem) (s : Solution) : List String := Id.run do
           -- the solver left unassigned is reported by the partition/unassigned lists, not here
           let present := r.jobs.filter (fun id => ids.contains id)
           if (positions present ids.zipIdx).isNone then
-            errs := s!"{r.kind} relation for {r.vehicleId}: order not kept" :: errs
+            -- told apart: the customer jobs keep their order and only a listed reload / break is not where the relation
+            -- puts it (the solver drops and re-inserts such markers on its own, known finding S45)
+            let plan := present.filter (fun id => !reserved id || id == "departure" || id == "arrival")
+            if (positions plan ids.zipIdx).isSome then
+              errs := s!"{r.kind} relation for {r.vehicleId}: a listed reload/break is not at its place" :: errs
+            else
+              errs := s!"{r.kind} relation for {r.vehicleId}: order not kept" :: errs
         | some ps =>
           if r.kind == "strict" && !(ps.zip (ps.drop 1)).all (fun (a, b) => b == a + 1) then
             errs := s!"strict relation for {r.vehicleId}: jobs are not contiguous" :: errs
